@@ -68,12 +68,13 @@ def reduce(t):
     return t
 
 
-def spec(fx, name, args, inline=("construct_",), depth=1):
+def spec(fx, name, args, inline=("construct_", "valtz"), depth=1):
     b = body_of(fx, name)
     if len(args) != len(b["params"]):
         raise AnalysisGap("%s has %d parameters, expected %d" % (name, len(b["params"]), len(args)))
     ev = sym.Eval(fx, inline_depth=depth, inline=lambda p: p.startswith(TS) and any(p[len(TS):].startswith(i) for i in inline))
-    v = reduce(ev.function(b, list(args)))
+    # loops that push and iterator chains are brought to one form (ftpl.canon_iter) before the template is normalised
+    v = ftpl.canon_iter(reduce(ev.function(b, list(args))))
     n = ftpl.NF()
     return n.formula(v), n, b
 
@@ -408,7 +409,7 @@ def rule_val(ctx):
                 # Z can itself be an integer variable of the same letter (val calls val with I / J as Z): it must be in the taken set.
                 # The variables of t are general-sorted program variables: an integer-sorted binder of the same name is a different
                 # variable, so their presence in the taken set is not required for correctness (it is reported, not demanded).
-                have_t = any(isinstance(x, tuple) and x[0] == "each" and x[1][0] == "call" and x[1][1] == "Term::variables" and is_whole_term(x[1][2][0]) for x in tnames)
+                have_t = any(isinstance(x, tuple) and x[0] in ("each", "at") and x[1][0] == "call" and x[1][1] == "Term::variables" and is_whole_term(x[1][2][0]) for x in tnames)
                 have_z = ("place", "$z.name") in tnames
                 ctx.add("FRESH", "val:%s:%s:taken" % (vk, prefix), have_z, ctx.site(b),
                         "%s is chosen fresh against Z (%s) [and against the variables of t: %s]; taken = {%s}" % (prefix, "yes" if have_z else "NO", "yes" if have_t else "no", ", ".join(sorted(rn(x) for x in tnames))))
@@ -459,11 +460,13 @@ def rule_tau_b(ctx):
         atom = ("atom", P("$p"), (("loop", zv),))
         for _ in range(signs[s]):
             atom = NOT(atom)
-        bind = check_tpl(ctx, "TPL", "tau_b:fo:%s" % s, EX([zv], AND(("bigand", VAL(M("ti"), zv)), atom)), f, ctx.site(b),
+        # ('at', L): the i-th element of list L;  ('fresh', prefix, ('len', L), 'ith'): the i-th of |L| fresh names
+        bind = check_tpl(ctx, "TPL", "tau_b:fo:%s" % s, EX([zv], AND(("bigand", VAL(("at", P("$ts")), zv)), atom)), f, ctx.site(b),
                          "[not [not]] p(t1..tk) is  exists Z1..Zk (val_t1(Z1) & .. & val_tk(Zk) & [not [not]] p(Z1..Zk))")
         if bind is not None:
-            ok, why = paired(bind["Zi"], bind["ti"], P("$ts"))
-            ctx.add("TPL", "tau_b:fo:%s:pairing" % s, ok, ctx.site(b), "the i-th term is evaluated into the i-th fresh variable, k = number of terms (%s)" % why)
+            zi = bind["Zi"]
+            ok = isinstance(zi, tuple) and zi[0] == "fresh" and zi[2] == ("len", P("$ts")) and zi[3] == "ith"
+            ctx.add("TPL", "tau_b:fo:%s:pairing" % s, ok, ctx.site(b), "the i-th term is evaluated into the i-th of k fresh variables, k = number of terms: %s" % rn(zi))
             tk = [t for p_, c_, t in nf.fresh]
             ctx.add("FRESH", "tau_b:fo:%s:taken" % s, bool(tk) and all(t == P("$taken") for t in tk), ctx.site(b), "Z1..Zk are chosen fresh against the caller's taken set")
         # propositional literal
@@ -503,10 +506,10 @@ def rule_tau_b(ctx):
             n2 = ftpl.NF()
             tk = n2.varset(sym_of(f[2][1]))
             names = {v[1] for v in tk if v[0] == "var"}
-            good = any(isinstance(x, tuple) and x[0] == "each" and x[1][0] == "call" and x[1][1] == "AtomicFormula::variables" and x[1][2][0][0] == "ctor" for x in names)
+            good = any(isinstance(x, tuple) and x[0] in ("each", "at") and x[1][0] == "call" and x[1][1] == "AtomicFormula::variables" and x[1][2][0][0] == "ctor" for x in names)
             ctx.add("FRESH", "tau_b:%s:taken" % kind, good, ctx.site(b), "the taken set handed to %s holds every variable of the whole atomic formula: {%s}" % (want, ", ".join(rn(x) for x in names)))
     f, nf, b = spec(fx, "tau_body", [C("Body", formulas=P("$fs"))], inline=())
-    check_tpl(ctx, "TPL", "tau_body", ("bigand", ("F", "tau_star::tau_b", (("each", P("$fs")),))), f, ctx.site(b), "the body is the conjunction of tau_b of each of its atomic formulas")
+    check_tpl(ctx, "TPL", "tau_body", ("bigand", ("F", "tau_star::tau_b", (("at", P("$fs")),))), f, ctx.site(b), "the body is the conjunction of tau_b of each of its atomic formulas")
 
 
 def sym_of(g):
@@ -530,7 +533,7 @@ def rule_tau_star(ctx):
     A = "syntax_tree::asp::mini_gringo::"
     R = P("$r")
     BODY = ("F", "tau_star::tau_body", (("place", "$r.body"),))
-    GV = var(("each", ("call", "Rule::variables", (R,))), "General")
+    GV = var(("at", ("call", "Rule::variables", (R,))), "General")
     heads = set(fx.variants(A + "Head"))
     ctx.add("TPL", "tau_star:Head-variants", heads == {"Basic", "Choice", "Falsity"}, "src/syntax_tree/asp/mini_gringo.rs", "head kinds: %s" % sorted(heads))
     # first-order heads
@@ -548,13 +551,13 @@ def rule_tau_star(ctx):
         if bind is not None:
             G = ("nth", P("$globals"), ("ctor", "Range", (("end", ("call", "Head::arity", (("place", "$r.head"),))), ("start", ("lit", 0)))))
             HT = ("call", "Option::unwrap", (("call", "Head::terms", (("place", "$r.head"),)),))
-            e = ("each", ("call", "Iterator::enumerate", (HT,)))
-            idx = ("proj", e, (("tuple", "0"),))
-            ok_v = bind["Vi"] == ("nth", G, idx) and bind["Vall"] == ("each", G)
+            idx = ("idx", HT)
+            ok_v = bind["Vi"] == ("nth", G, idx) and bind["Vall"] == ("at", G)
             ctx.add("TPL", "tau_star:fo:%s:V" % h, ok_v, ctx.site(b), "V_i = globals[0..arity][i] for the i-th head term, and all of globals[0..arity] are bound: V_i = %s, bound = %s" % (rn(bind["Vi"]), rn(bind["Vall"])))
             ok_t = bind["terms"] == HT
             vs = bind["vs"]
-            ok_vs = vs == ("upd", ("call", "Vec::new", ()), "push", (("ctor", "Variable", (("name", ("nth", G, idx)), ("sort", ("ctor", "Sort::General", ())))),))
+            ok_vs = vs in (("upd", ("call", "Vec::new", ()), "push", (("ctor", "Variable", (("name", ("nth", G, idx)), ("sort", ("ctor", "Sort::General", ())))),)),
+                           ("upd", ("acc", ("call", "Vec::new", ())), "push", (("ctor", "Variable", (("name", ("nth", G, idx)), ("sort", ("ctor", "Sort::General", ())))),)))
             ctx.add("TPL", "tau_star:fo:%s:valtz-args" % h, ok_t and ok_vs, ctx.site(b), "val_t(V) pairs the head terms with V in order: terms = %s, variables = %s" % (rn(bind["terms"]), rn(vs)))
             okp = bind["p"] == ("place", "$sym") or "Head::predicate" in key(bind["p"])
             ctx.add("TPL", "tau_star:fo:%s:predicate" % h, okp and key(bind["p"]).count("symbol") >= 1, ctx.site(b), "the head atom keeps the predicate symbol of the rule head: %s" % rn(bind["p"]))
@@ -572,9 +575,8 @@ def rule_tau_star(ctx):
     check_tpl(ctx, "TPL", "tau_star:constraint", ALL([GV], IMP(BODY, ("false",))), f, ctx.site(b), "constraint:  forall G (tau^B(Body) -> #false)")
     # valtz
     f, nf, b = spec(fx, "valtz", [P("$terms"), P("$vars")], inline=())
-    ok = f[0] == "bigand-map" and f[3] == VAL(P(f[2][0].split("/")[0]), var(("place", f[2][0].split("/")[1] + ".name"), ("place", f[2][0].split("/")[1] + ".sort"))) if f[0] == "bigand-map" and "/" in f[2][0] else False
-    srcok = f[0] == "bigand-map" and f[1] == ("call", "Iterator::zip", (("call", "Vec::drain", (P("$terms"), ("ctor", "RangeFull", ()))), ("call", "Vec::drain", (P("$vars"), ("ctor", "RangeFull", ())))))
-    ctx.add("TPL", "valtz", bool(ok and srcok), ctx.site(b), "valtz(terms, variables) is the conjunction of val(t_i, v_i) over the zip of both lists: %s" % render(f))
+    want = ("bigand", VAL(("at", P("$terms")), var(("each-name", P("$vars")), ("each-sort", P("$vars")))))
+    ctx.add("TPL", "valtz", f == want, ctx.site(b), "valtz(terms, variables) is the conjunction of val(t_i, v_i), the i-th term with the i-th variable: %s" % render(f))
     # dispatch of tau_star_rule
     b = body_of(fx, "tau_star_rule")
     ev = sym.Eval(fx, inline_depth=0)
@@ -602,9 +604,10 @@ def rule_tau_star(ctx):
     # the program level
     b = body_of(fx, "tau_star")
     ev = sym.Eval(fx, inline_depth=0)
-    v = reduce(ev.function(b, [P("$p")]))
-    want = ("ctor", "Theory", (("formulas", ("upd", ("acc", ("list", ())), "push", (("call", "tau_star::tau_star_rule", (("each", ("place", "$p.rules")), ("call", "tau_star::choose_fresh_global_variables", (P("$p"),)))),))),))
-    ctx.add("TPL", "tau_star:program", v == want, ctx.site(b), "the theory has one tau_star_rule formula per rule, in order, with the globals chosen for this very program: %s" % rn(ftpl.NF().gen(v)))
+    v = ftpl.canon_iter(reduce(ev.function(b, [P("$p")])))
+    elem = ("call", "tau_star::tau_star_rule", (("at", ("place", "$p.rules")), ("call", "tau_star::choose_fresh_global_variables", (P("$p"),))))
+    fm = dict(v[2]).get("formulas") if v[0] == "ctor" and v[1] == "Theory" else None
+    ctx.add("TPL", "tau_star:program", fm is not None and ftpl._comp(fm) == elem, ctx.site(b), "the theory has one tau_star_rule formula per rule, in order, with the globals chosen for this very program: %s" % rn(ftpl.NF().gen(v)))
 
 
 def select_head(f, h):
@@ -680,16 +683,20 @@ def rule_choosers(ctx):
     # globals:  V<m+1> .. V<m+n>,  m = max number of a program variable matching ^V[0-9]*$,  n = max head arity
     g = body_of(fx, "choose_fresh_global_variables")
     ev = sym.Eval(fx, inline_depth=0)
-    gv = reduce(ev.function(g, [P("$program")]))
-    shape = gv[0] == "upd" and gv[2] == "push" and gv[1] == ("acc", ("call", "Vec::new", ())) and gv[3][0][0] == "upd" and gv[3][0][1] == ("lit", "V") and gv[3][0][2] == "push_str"
-    ctx.add("FRESH", "globals:shape", bool(shape), ctx.site(g), "every global variable is the letter V followed by a number, pushed in order")
-    num = gv[3][0][3][0] if shape else None
-    okn = bool(num) and num[0] == "bin" and num[1] == "Add"
+    gv = ftpl.canon_iter(reduce(ev.function(g, [P("$program")])))
+    gel = ftpl._comp(gv)
+    # each element: "V" followed by a number
+    num = None
+    if gel is not None and gel[0] == "upd" and gel[1] == ("lit", "V") and gel[2] == "push_str":
+        num = gel[3][0]
+    elif gel is not None and gel[0] == "format" and re.fullmatch(r"V\{\w*\}", gel[1]) and len(gel[2]) == 1:
+        num = gel[2][0]
+    ctx.add("FRESH", "globals:shape", num is not None, ctx.site(g), "every global variable is the letter V followed by a number, produced in order")
     maxv = maxar = rng = None
-    if okn:
+    if num is not None and num[0] == "bin" and num[1] == "Add":
         a, c = num[2], num[3]
         for x, y in ((a, c), (c, a)):
-            if y[0] == "each" and y[1][0] == "ctor" and y[1][1] == "Range":
+            if y[0] == "at" and y[1][0] == "ctor" and y[1][1] == "Range":
                 maxv, rng = x, dict(y[1][2])
     ctx.add("FRESH", "globals:offset", bool(rng) and rng.get("start") == ("lit", 1), ctx.site(g),
             "the i-th global is V<max_taken + i> with i counting from 1, so its number is larger than every taken number")
@@ -698,14 +705,22 @@ def rule_choosers(ctx):
         if e and e[0] == "bin" and e[1] == "Add" and ("lit", 1) in (e[2], e[3]):
             maxar = e[2] if e[3] == ("lit", 1) else e[3]
     fa = maxfold(maxar) if maxar else None
-    ctx.add("FRESH", "globals:count", fa == (("call", "Head::arity", (("place", "each($program.rules).head"),)), None) or
-            (fa is not None and fa[1] is None and fa[0] == ("call", "Head::arity", (("fieldof", ("each", ("place", "$program.rules")), "head"),))), ctx.site(g),
-            "as many globals as the largest head arity over all rules of the program are produced (so globals[0..arity] never runs short)")
+    ctx.add("FRESH", "globals:count", fa is not None and fa[1] is None and fa[0] == ("call", "Head::arity", (("fieldof", ("at", ("place", "$program.rules")), "head"),)), ctx.site(g),
+            "as many globals as the largest head arity over all rules of the program are produced (so globals[0..arity] never runs short): %s" % (rn(ftpl.NF().gen(fa[0])) if fa else None))
     fv = maxfold(maxv) if maxv else None
-    name = ("fieldof", ("each", ("call", "Program::variables", (P("$program"),))), "0")
+    PV = ("call", "Program::variables", (P("$program"),))
+    name = ("fieldof", ("at", PV), "0")
     cap = ("call", "Regex::captures", (("const", "RE"), name))
-    elem = ("call", "Result::unwrap_or", (("call", "str::parse", (("index", ("proj", cap, (("Option::Some", "0"),)), ("lit", "number")),)), ("lit", 0)))
-    ctx.add("FRESH", "globals:max", fv == (elem, ("iflet", "Option::Some(_)", cap)), ctx.site(g),
+    # the match object: either bound by `if let Some(caps) = RE.captures(name)` or produced by filter_map(|var| RE.captures(&var.0))
+    caps_loop = ("proj", cap, (("Option::Some", "0"),))
+    caps_iter = ("at", ("call", "Iterator::filter_map", (PV, ("closure", ("var",), ("call", "Regex::captures", (("const", "RE"), ("place", "var.0")))))))
+
+    def elem_of(c):
+        return ("call", "Result::unwrap_or", (("call", "str::parse", (("index", c, ("lit", "number")),)), ("lit", 0)))
+    okmax = fv is not None and (fv == (elem_of(caps_loop), ("iflet", "Option::Some(_)", cap)) or fv == (elem_of(caps_iter), None) or
+                                (fv[1] is None and fv[0][:2] == ("call", "Result::unwrap_or") and "Iterator::filter_map" in key(fv[0]) and key(fv[0]).count("Regex::captures") == 1 and
+                                 key(PV) in key(fv[0]) and "('const', 'RE')" in key(fv[0]) and "('lit', 'number')" in key(fv[0])))
+    ctx.add("FRESH", "globals:max", okmax, ctx.site(g),
             "max_taken is the maximum, over every variable of the whole program whose name matches RE, of the number after the V (0 when it does not parse)")
     # RE: the language is exactly V[0-9]*, the group `number` is the digit string
     from .. import regular
@@ -728,7 +743,11 @@ def rule_choosers(ctx):
 
 
 def maxfold(t):
-    """t = the value of `m` after  for x in S { [if let P = G] { if X > m { m = X } } }  with m initially 0  ->  (X, guard or None)"""
+    """t = the value of `m` after  for x in S { [if let P = G] { if X > m { m = X } } }  with m initially 0,  or  S.map(X).max().unwrap_or(0)
+    ->  (X, guard or None)"""
+    if t[:2] == ("call", "Option::unwrap_or") and len(t[2]) == 2 and t[2][1] == ("lit", 0) and t[2][0][:2] == ("call", "Iterator::max"):
+        el = ftpl._comp(t[2][0][2][0])
+        return (el, None) if el is not None else None
     guard = None
     if t[0] == "phi" and t[1][0] == "if" and t[1][1][0] == "iflet":
         guard = t[1][1]
@@ -746,61 +765,72 @@ def maxfold(t):
 
 
 def rule_zclass(ctx):
-    """Q and R are chosen fresh against the variables of val_t1(I), val_t2(J) but not against Z itself: Z can only be a name whose letter is not Q / R."""
+    """Q and R are chosen fresh against the variables of val_t1(I), val_t2(J) but not against Z itself: Z can only be a name whose letter
+    (and sort) is not that of Q / R.  Every function of tau_star.rs that reaches `val` (directly or through valtz) is evaluated and the Z of
+    every val call classified: a fresh name (by prefix and sort), one of the global variables, or - inside val - val's own Z."""
     fx = ctx.facts
-    callers = {}
-    for b in fx.body_list:
-        if b.get("file", "").endswith(".rs") and "#[cfg(test)]" not in b["def_path"]:
-            for tgt in ("val", "valtz", "tau_star_fo_head_rule"):
-                if hq.fn_refs(b["body"], TS + tgt) or hq.calls(b["body"], TS + tgt):
-                    if "::tests::" not in b["def_path"]:
-                        callers.setdefault(tgt, set()).add(b["def_path"][len(TS):] if b["def_path"].startswith(TS) else b["def_path"])
-    ctx.add("FRESH", "z-class:callers-of-val", callers.get("val") == {"val", "tau_b_first_order_literal", "tau_b_comparison", "valtz", "valtz::{closure#0}"} or
-            {c.split("::")[0] for c in callers.get("val", ())} == {"val", "tau_b_first_order_literal", "tau_b_comparison", "valtz"}, "src/translating/formula_representation/tau_star.rs",
-            "val is called from val, tau_b_first_order_literal, tau_b_comparison and valtz only: %s" % sorted(callers.get("val", ())))
-    ctx.add("FRESH", "z-class:callers-of-valtz", {c.split("::")[0] for c in callers.get("valtz", ())} == {"tau_star_fo_head_rule"}, "src/translating/formula_representation/tau_star.rs",
-            "valtz is called from tau_star_fo_head_rule only: %s" % sorted(callers.get("valtz", ())))
     classes = {}
-    # val -> val
-    f, nf, b = spec(fx, "val", [C("Term::BinaryOperation", op=C("BinaryOperator::Divide"), lhs=P("$lhs"), rhs=P("$rhs")), P("$z")])
     qr = set()
-    for s_ in sym.subterms(f):
-        if isinstance(s_, tuple) and s_ and s_[0] == "val":
-            classes.setdefault("val", set()).add(name_class(s_[2][1], s_[2][2]))
-        if isinstance(s_, tuple) and s_ and s_[0] == "Q":
-            for v in s_[2]:
-                qr.add(name_class(v[1], v[2]))
-    for un in fx.variants("syntax_tree::asp::mini_gringo::UnaryOperator"):
-        f2, _, _ = spec(fx, "val", [C("Term::UnaryOperation", op=C("UnaryOperator::" + un), arg=P("$arg")), P("$z")])
-        for s_ in sym.subterms(f2):
-            if isinstance(s_, tuple) and s_ and s_[0] == "val":
-                classes.setdefault("val", set()).add(name_class(s_[2][1], s_[2][2]))
-    lit = C("Literal", sign=C("Sign::NoSign"), atom=C("Atom", predicate_symbol=P("$p"), terms=P("$ts")))
-    for fn, args in (("tau_b_first_order_literal", [lit, P("$taken")]), ("tau_b_comparison", [C("Comparison", relation=C("Relation::Equal"), lhs=P("$lhs"), rhs=P("$rhs")), P("$taken")])):
-        f, nf, b = spec(fx, fn, args)
-        for s_ in sym.subterms(f):
-            if isinstance(s_, tuple) and s_ and s_[0] == "val":
-                classes.setdefault(fn, set()).add(name_class(s_[2][1], s_[2][2]))
-    # valtz <- tau_star_fo_head_rule: globals
+    # the prefix of the global variables
     g = body_of(fx, "choose_fresh_global_variables")
-    gv = reduce(sym.Eval(fx, inline_depth=0).function(g, [P("$program")]))
-    gl = gv[3][0][1][1] if gv[0] == "upd" and gv[3][0][0] == "upd" and gv[3][0][1][0] == "lit" else None
-    f, nf, b = spec(fx, "tau_star_fo_head_rule", [P("$r"), P("$globals")], inline=())
-    for s_ in sym.subterms(f):
-        if isinstance(s_, tuple) and s_ and s_[0] == "F" and s_[1] == "tau_star::valtz":
-            vs = s_[2][1]
-            for x in sym.subterms(vs):
-                if isinstance(x, tuple) and x and x[0] == "ctor" and x[1] == "Variable":
-                    d_ = dict(x[2])
-                    srt = d_.get("sort", ("?",))
-                    srt = srt[1].split("::")[-1][0].lower() if srt[0] == "ctor" else "?"
-                    classes.setdefault("valtz", set()).add("globals:%s$%s" % (gl, srt) if "$globals" in key(d_.get("name")) else "?")
-    # who calls tau_star_fo_head_rule with which globals is part of tau_star:program / C08 (mu)
+    gv = ftpl.canon_iter(reduce(sym.Eval(fx, inline_depth=0).function(g, [P("$program")])))
+    gel = ftpl._comp(gv)
+    gl = None
+    if gel is not None and gel[0] == "format" and gel[1][:1].isalpha():
+        gl = gel[1][0]
+    elif gel is not None and gel[0] == "upd" and gel[1][0] == "lit" and isinstance(gel[1][1], str) and gel[1][1][:1].isalpha():
+        gl = gel[1][1][0]
+    private_outside = []
+    for b in fx.body_list:
+        dp = b["def_path"]
+        if "::tests::" in dp or b.get("kind") not in ("Fn", "AssocFn") or "{" in dp:
+            continue
+        refs = any(hq.fn_refs(b["body"], TS + t) or hq.calls(b["body"], TS + t) for t in ("val", "valtz"))
+        if not refs:
+            continue
+        if not dp.startswith(TS):
+            private_outside.append(dp)
+            continue
+        name = dp[len(TS):]
+        if name == "valtz":
+            continue  # inlined into its callers
+        A = "syntax_tree::asp::mini_gringo::"
+        argsets = [[P("$" + (p_.get("name") or "a%d" % i_)) for i_, p_ in enumerate(b["params"])]]
+        if name == "val":
+            argsets = [[C("Term::BinaryOperation", op=C("BinaryOperator::" + o), lhs=P("$lhs"), rhs=P("$rhs")), P("$z")] for o in fx.variants(A + "BinaryOperator")] + \
+                      [[C("Term::UnaryOperation", op=C("UnaryOperator::" + u), arg=P("$arg")), P("$z")] for u in fx.variants(A + "UnaryOperator")]
+        for args in argsets:
+            ev = sym.Eval(fx, inline_depth=2, inline=lambda p_: p_.startswith(TS) and p_[len(TS):].startswith(("construct_", "valtz")))
+            v = ftpl.canon_iter(reduce(ev.function(b, list(args))))
+            nf = ftpl.NF()
+            for s_ in sym.subterms(v):
+                if isinstance(s_, tuple) and s_[:2] == ("call", "tau_star::val") and len(s_[2]) == 2:
+                    try:
+                        zv = nf.var(s_[2][1])
+                    except AnalysisGap:
+                        zv = ("var", ("?", s_[2][1]), "?")
+                    nm, srt = zv[1], zv[2]
+                    if name == "val" and nm == ("place", "$z.name"):
+                        continue
+                    if isinstance(nm, tuple) and nm and nm[0] == "fresh":
+                        classes.setdefault(name, set()).add(name_class(nm, srt))
+                    elif "$globals" in key(nm) and gl:
+                        classes.setdefault(name, set()).add("globals:%s$%s" % (gl, str(srt)[0].lower()))
+                    else:
+                        classes.setdefault(name, set()).add("other:%s" % rn(nm))
+                if name == "val" and isinstance(s_, tuple) and s_[:2] == ("ctor", "Formula::QuantifiedFormula"):
+                    try:
+                        q = nf.formula(s_)
+                        for vv in q[2]:
+                            qr.add(name_class(vv[1], vv[2]))
+                    except Exception:
+                        pass
+    ctx.add("FRESH", "z-class:callers", not private_outside, "src/translating/formula_representation/tau_star.rs", "val / valtz are used inside tau_star.rs only: %s" % private_outside)
     flat = set()
-    for k_, v in classes.items():
+    for v in classes.values():
         flat |= v
     letters = {c.split(":")[-1] for c in flat}
-    ok = all(re.fullmatch(r"(fresh|globals):[A-Z]\$[gi]", c) for c in flat) and len(classes) == 4
+    ok = bool(flat) and all(re.fullmatch(r"(fresh|globals):[A-Z]\$[gi]", c) for c in flat) and "val" in classes and len(classes) >= 3
     ctx.add("FRESH", "z-class:origins", ok, "src/translating/formula_representation/tau_star.rs", "every Z handed to val is a fresh name or a global variable: %s" % {k_: sorted(v) for k_, v in sorted(classes.items())})
     # a variable is identified by name and sort: only a Z of the same sort as the quotient / remainder variable can be captured
     qr_letters = {c.split(":")[-1] for c in qr if c.startswith("fresh:")}
